@@ -103,6 +103,9 @@ pub fn family(name: &str) -> Family {
             init: ops(&["add-dim A anarchy", "add A::x classic", "add-dim H hierarchy", "update", "keygen A::x"]),
             alphabet: ops(&[
                 "rt-msk",
+                "del-dim H",
+                "add-dim H anarchy",
+                "add-dim H hierarchy",
                 "add H::lo classic",
                 "add H::hi classic after lo",
                 "add H::mid hybrid after lo",
